@@ -129,7 +129,7 @@ var ruleTraversal = &Rule{
 				}
 			case q == level:
 			default:
-				if a != ssa.Value(q) {
+				if a != ssa.Value(q) && spilledParam(a) != q {
 					okArgs = false
 					why = append(why, "parameter "+q.Name()+" is not passed through unchanged")
 				}
@@ -287,16 +287,56 @@ var ruleTraversal = &Rule{
 		idx := func(q *ssa.Parameter) int { return paramIndex(q) }
 		var flagP *ssa.Parameter
 		// the bool parameter that is tested before the temporary override call
-		for _, b := range T.Blocks {
-			if iff, ok := b.Instrs[len(b.Instrs)-1].(*ssa.If); ok {
-				if q, ok := iff.Cond.(*ssa.Parameter); ok {
-					for _, ins := range b.Succs[0].Instrs {
-						if c, ok := ins.(*ssa.Call); ok && isMethodOfExecutor(p, c.Call.StaticCallee()) && c.Call.StaticCallee().Signature.Results().Len() == 1 {
-							flagP = q
-						}
-					}
+		// (`if ignore { defer exec.tempSet…(true)() }`, also as one operand of
+		// a conjunction)
+		isOverride := func(c *ssa.Call) bool {
+			g := c.Call.StaticCallee()
+			if g == nil || !isMethodOfExecutor(p, g) || g.Signature.Results().Len() != 1 {
+				return false
+			}
+			_, isFn := g.Signature.Results().At(0).Type().Underlying().(*types.Signature)
+			return isFn
+		}
+		var overrides []*ssa.Call
+		for _, c := range p.allCalls(T) {
+			if !isOverride(c) || c.Block() == nil {
+				continue
+			}
+			for _, f := range factsAt(c.Block()) {
+				if q, ok := f.Cond.(*ssa.Parameter); ok && f.Truth && q.Parent() == T {
+					flagP = q
+					overrides = append(overrides, c)
 				}
 			}
+		}
+		// (d) wherever the traversal hands an element to the following item,
+		// the override is in force when the flag asks for it: no path from the
+		// function's entry reaches that evaluation with the flag true and
+		// without passing an override call
+		if flagP != nil {
+			nev := 0
+			for _, c := range p.allCalls(T) {
+				if c.Call.StaticCallee() == T || c.Block() == nil || p.pairKind(calleeSig(c)) != "status" {
+					continue
+				}
+				onElem := false
+				for _, a := range c.Call.Args {
+					if stripConv(a) == elem {
+						onElem = true
+					}
+				}
+				if !onElem {
+					continue
+				}
+				nev++
+				key := fmt.Sprintf("structural errors are ignored while an element is evaluated below .** #%d", nev)
+				if w := pathAvoiding(T, c, overrides, map[string]bool{condKey(flagP): true}); w == "" {
+					out.ok(key, p.pos(c.Pos()), fnName(T), "every path to the evaluation on which "+flagP.Name()+" is true passes the override")
+				} else {
+					out.viol(key, p.pos(c.Pos()), fnName(T), "with "+flagP.Name()+" true the evaluation of the following item on an element is reached without the override of the structural-error flag ("+w+"): in strict mode `$.**{last}.a` fails on the first leaf instead of skipping it")
+				}
+			}
+			out.Counts["element_evaluations"] = nev
 		}
 		if nodeCG != nil {
 			for _, e := range nodeCG.In {
@@ -350,6 +390,170 @@ var ruleTraversal = &Rule{
 		out.Floors["outside_call_sites"] = 2
 		return out
 	},
+}
+
+// spilledParam: v is a load of the local cell a parameter was spilled into
+// (a closure of the function captures it) and nothing else is ever stored
+// there: that parameter.
+func spilledParam(v ssa.Value) *ssa.Parameter {
+	u, ok := v.(*ssa.UnOp)
+	if !ok || u.Op != token.MUL {
+		return nil
+	}
+	a, ok := u.X.(*ssa.Alloc)
+	if !ok {
+		return nil
+	}
+	var q *ssa.Parameter
+	for _, r := range *a.Referrers() {
+		st, ok := r.(*ssa.Store)
+		if !ok || st.Addr != ssa.Value(a) {
+			continue
+		}
+		pq, isP := st.Val.(*ssa.Parameter)
+		if !isP || (q != nil && q != pq) {
+			return nil
+		}
+		q = pq
+	}
+	// a closure that captures the cell must not write it
+	for _, r := range *a.Referrers() {
+		mc, ok := r.(*ssa.MakeClosure)
+		if !ok {
+			continue
+		}
+		lit, _ := mc.Fn.(*ssa.Function)
+		if lit == nil {
+			return nil
+		}
+		for i, b := range mc.Bindings {
+			if b != ssa.Value(a) || i >= len(lit.FreeVars) {
+				continue
+			}
+			for _, fr := range *lit.FreeVars[i].Referrers() {
+				if st, ok := fr.(*ssa.Store); ok && st.Addr == ssa.Value(lit.FreeVars[i]) {
+					return nil
+				}
+			}
+		}
+	}
+	return q
+}
+
+// condKey: a canonical text for a branch condition, so that the same test
+// written twice (`node != nil` before and inside a loop) is recognised.
+// negated reports that the condition is the negation of the keyed one.
+func condKey(v ssa.Value) string {
+	k, _ := condKeyNeg(v)
+	return k
+}
+
+func condKeyNeg(v ssa.Value) (string, bool) {
+	v = stripConvPlain(v)
+	switch x := v.(type) {
+	case *ssa.UnOp:
+		if x.Op == token.NOT {
+			k, n := condKeyNeg(x.X)
+			return k, !n
+		}
+	case *ssa.BinOp:
+		opnd := func(o ssa.Value) string {
+			o = stripConvPlain(o)
+			if c, ok := o.(*ssa.Const); ok {
+				return "const " + c.String()
+			}
+			return fmt.Sprintf("%p", o)
+		}
+		switch x.Op {
+		case token.EQL:
+			return "== " + opnd(x.X) + " " + opnd(x.Y), false
+		case token.NEQ:
+			return "== " + opnd(x.X) + " " + opnd(x.Y), true
+		case token.LSS:
+			return "< " + opnd(x.X) + " " + opnd(x.Y), false
+		case token.GEQ:
+			return "< " + opnd(x.X) + " " + opnd(x.Y), true
+		case token.GTR:
+			return "< " + opnd(x.Y) + " " + opnd(x.X), false
+		case token.LEQ:
+			return "< " + opnd(x.Y) + " " + opnd(x.X), true
+		}
+	}
+	return fmt.Sprintf("%p", v), false
+}
+
+// pathAvoiding: a path in fn from its entry to the call target that passes
+// none of the calls in avoid and is consistent (each distinct condition takes
+// one truth along the path, starting from the given assumptions); "" if none.
+func pathAvoiding(fn *ssa.Function, target *ssa.Call, avoid []*ssa.Call, assume map[string]bool) string {
+	isAvoid := map[ssa.Instruction]bool{}
+	for _, a := range avoid {
+		isAvoid[a] = true
+	}
+	budget := 20000
+	found := ""
+	var walk func(b *ssa.BasicBlock, as map[string]bool, on map[*ssa.BasicBlock]bool, trail []string)
+	walk = func(b *ssa.BasicBlock, as map[string]bool, on map[*ssa.BasicBlock]bool, trail []string) {
+		if found != "" || budget <= 0 {
+			return
+		}
+		budget--
+		for _, ins := range b.Instrs {
+			if isAvoid[ins] {
+				return
+			}
+			if ins == ssa.Instruction(target) {
+				found = strings.Join(trail, " → ")
+				if found == "" {
+					found = "straight from the entry"
+				}
+				return
+			}
+		}
+		next := func(s *ssa.BasicBlock, as map[string]bool, step string) {
+			if on[s] {
+				return
+			}
+			non := make(map[*ssa.BasicBlock]bool, len(on)+1)
+			for k := range on {
+				non[k] = true
+			}
+			non[s] = true
+			nt := trail
+			if step != "" {
+				nt = append(append([]string{}, trail...), step)
+			}
+			walk(s, as, non, nt)
+		}
+		switch x := b.Instrs[len(b.Instrs)-1].(type) {
+		case *ssa.If:
+			k, neg := condKeyNeg(x.Cond)
+			if t, ok := as[k]; ok {
+				if t != neg {
+					next(b.Succs[0], as, "")
+				} else {
+					next(b.Succs[1], as, "")
+				}
+				return
+			}
+			for si, truth := range []bool{true, false} {
+				nas := make(map[string]bool, len(as)+1)
+				for kk, vv := range as {
+					nas[kk] = vv
+				}
+				nas[k] = truth != neg
+				pos := ""
+				if x.Cond.Pos().IsValid() {
+					pos = fmt.Sprintf("%v at line %d", truth, fn.Prog.Fset.Position(x.Cond.Pos()).Line)
+				}
+				next(b.Succs[si], nas, pos)
+			}
+		case *ssa.Jump:
+			next(b.Succs[0], as, "")
+		}
+	}
+	walk(fn.Blocks[0], assume, map[*ssa.BasicBlock]bool{fn.Blocks[0]: true}, nil)
+	return found
 }
 
 func u32s(v int64) string {
